@@ -324,6 +324,7 @@ class TrioEnv:
                 self.quiescent(0)
                 await self._run_steps(sess.steps())
                 await self._run_steps(sess.finish_steps())
+                sess.trace.sealed = True
                 self.nursery = None
                 nursery.cancel_scope.cancel()
         except BaseException as error:  # leftovers cancelled at the end of the execution
